@@ -1,11 +1,16 @@
-(* Properties_C08.v — C08: no descriptor leaks or crashes across abort histories (partial: protocol model).
+(* Properties_C08.v — C08: no descriptor leaks or crashes across abort histories.
+   PARTIAL: the theorems are about src/fd.cc's accounting functions (transcribed line by line) and about a
+   descriptor-ownership PROTOCOL machine (FdleakModel.v: _comm_close / comm_close_complete, close handlers,
+   timeouts, the idle pool, ConnStateData / HttpStateData as owners). That every owner in the real proxy follows
+   this protocol is NOT proved; it rests on the end-to-end runs of checks/c08.py.
    Statements only; proofs live in FdleakProofs.v. *)
 Require Import SquidV.Bytes SquidV.FdleakModel SquidV.FdleakProofs.
 
-(* src/fd.cc: after ANY sequence of fd_open/fd_close calls that respects the callers' obligations (descriptor inside
-   the table; fd_close only on an open entry) -- including fd_open on an entry that is already open -- no assert of
-   fd.cc fires, the open flags are those of the plain replay, Number_FD is the number of open flags and Biggest_FD is
-   the largest open descriptor (-1 when none) *)
+(* --- src/fd.cc -------------------------------------------------------------------------------------------
+   after ANY sequence of fd_open/fd_close calls that respects the callers' obligations (descriptor inside the
+   table; fd_close only on an open entry) -- fd_open on an entry that is already open included -- the open flags
+   are those of the plain replay, Number_FD is the number of open flags, Biggest_FD is the largest open
+   descriptor (-1 when none) *)
 Theorem C08_fd_table_accounting : forall maxfd ops d,
   ops_valid maxfd (fun _ => false) ops -> run_fdops maxfd fds_empty ops = Some d ->
   (forall g, fopen d g = replay (fun _ => false) ops g) /\
@@ -16,6 +21,7 @@ Theorem C08_fd_table_accounting : forall maxfd ops d,
 Proof. exact fd_accounting. Qed.
 Print Assumptions C08_fd_table_accounting.
 
+(* ... and no assert of fd.cc (flags.open in fd_close; the three asserts of fdUpdateBiggest) fires *)
 Theorem C08_fd_valid_calls_never_assert : forall maxfd ops,
   ops_valid maxfd (fun _ => false) ops -> run_fdops maxfd fds_empty ops <> None.
 Proof. exact fd_valid_never_asserts. Qed.
@@ -23,3 +29,125 @@ Print Assumptions C08_fd_valid_calls_never_assert.
 
 Example C08_ops_valid_example : ops_valid 8 (fun _ => false) [FOpen 3; FOpen 5; FClose 5; FOpen 3; FOpen 7; FClose 7].
 Proof. cbn. repeat split; lia. Qed.
+
+(* --- src/comm.cc _comm_close ------------------------------------------------------------------------------
+   calling it again on a descriptor that is already being closed changes nothing *)
+Theorem C08_comm_close_idempotent : forall s f, comm_close (comm_close s f) f = comm_close s f.
+Proof. exact comm_close_idempotent. Qed.
+Print Assumptions C08_comm_close_idempotent.
+
+(* on an open descriptor it schedules every registered close handler once, in list order, then
+   comm_close_complete, and leaves no handler and no timeout behind *)
+Theorem C08_comm_close_schedules_handlers_then_complete : forall s f, active s f = true ->
+  q (comm_close s f) = q s ++ map CHandler (hs s f) ++ [CComplete f] /\
+  hs (comm_close s f) f = [] /\ tmo (comm_close s f) f = false /\ closing (comm_close s f) f = true.
+Proof. exact comm_close_schedules. Qed.
+Print Assumptions C08_comm_close_schedules_handlers_then_complete.
+
+(* --- the protocol machine: ALL event sequences ---------------------------------------------------------------
+   (accepts, connects, pool pops, complete / failed server replies, client completions and aborts, timeouts in
+   any order, idle-connection reads, closes by third parties, and the call queue firing at any time)
+   from the start state with descriptors 0..ninfra-1 open: no assert of fd.cc fires *)
+Theorem C08_no_assertion_in_any_history : forall maxfd ninfra reserved, ninfra <= maxfd ->
+  forall evs, run maxfd reserved (init ninfra) evs <> None.
+Proof. exact never_asserts. Qed.
+Print Assumptions C08_no_assertion_in_any_history.
+
+(* in every reachable state Number_FD = number of open flags, Biggest_FD = largest open descriptor, the kernel's
+   descriptor set equals the table's, exactly the descriptors being closed have one comm_close_complete pending,
+   and PconnPool's count is the pool size *)
+Theorem C08_accounting_invariant : forall maxfd ninfra reserved, ninfra <= maxfd ->
+  forall evs s, run maxfd reserved (init ninfra) evs = Some s ->
+  fnum (tbl s) = Z.of_nat (count_open maxfd (fopen (tbl s))) /\
+  fbig (tbl s) = lower (fopen (tbl s)) maxfd /\
+  (forall f, kern s f = fopen (tbl s) f) /\
+  (forall f, fopen (tbl s) f = true -> f < maxfd) /\
+  (forall f, ncomplete f (q s) = if closing s f then 1 else 0) /\
+  pcount s = Z.of_nat (length (pool s)).
+Proof. exact reachable_accounting. Qed.
+Print Assumptions C08_accounting_invariant.
+
+(* a descriptor being closed is still open, has no handlers and no timeout left, and is closed exactly once *)
+Theorem C08_close_happens_once : forall maxfd ninfra reserved, ninfra <= maxfd ->
+  forall s f, reachable maxfd ninfra reserved s ->
+  ncomplete f (q s) = (if closing s f then 1 else 0) /\
+  (closing s f = true -> fopen (tbl s) f = true /\ hs s f = [] /\ tmo s f = false).
+Proof. exact reach_close_once. Qed.
+Print Assumptions C08_close_happens_once.
+
+(* no orphans: whenever the call queue is empty, every open descriptor is an infrastructure descriptor, or belongs
+   to exactly one live job that has its close handler registered and a timeout armed, or sits in the idle pool with
+   a timeout armed *)
+Theorem C08_every_descriptor_has_an_owner : forall maxfd ninfra reserved, ninfra <= maxfd ->
+  forall s f, reachable maxfd ninfra reserved s -> q s = [] -> fopen (tbl s) f = true ->
+  kern s f = true /\ closing s f = false /\
+  ((f < ninfra /\ own s f = OInfra) \/
+   (exists c, (own s f = OCli c \/ own s f = OSrv c) /\ hs s f = [own s f] /\ tmo s f = true /\ ~ In f (pool s)) \/
+   (own s f = OIdle /\ In f (pool s) /\ tmo s f = true /\ hs s f = [])).
+Proof. exact reach_no_orphans. Qed.
+Print Assumptions C08_every_descriptor_has_an_owner.
+
+Theorem C08_one_descriptor_per_job : forall maxfd ninfra reserved, ninfra <= maxfd ->
+  forall s f g, reachable maxfd ninfra reserved s -> active s f = true -> active s g = true ->
+  own s f = own s g -> is_job (own s f) = true -> f = g.
+Proof. exact reach_one_descriptor_per_job. Qed.
+Print Assumptions C08_one_descriptor_per_job.
+
+(* close => close handler => owner ends: a close from anywhere notifies the owning job before the descriptor is
+   released, and when a client's handler runs with the transaction aborted, its server connection is released too *)
+Theorem C08_close_notifies_owner : forall maxfd ninfra reserved, ninfra <= maxfd ->
+  forall s f o, reachable maxfd ninfra reserved s -> active s f = true -> own s f = o -> is_job o = true ->
+  exists s', step maxfd reserved s (EClose f) = Some s' /\
+             q s' = q s ++ [CHandler o; CComplete f] /\ closing s' f = true /\ fopen (tbl s') f = true.
+Proof. exact reach_close_notifies_owner. Qed.
+Print Assumptions C08_close_notifies_owner.
+
+Theorem C08_owner_end_releases_server : forall maxfd ninfra reserved, ninfra <= maxfd ->
+  forall s c r f, reachable maxfd ninfra reserved s -> q s = CHandler (OCli c) :: r ->
+  active s f = true -> own s f = OSrv c ->
+  exists s', step maxfd reserved s (ERun true) = Some s' /\ closing s' f = true /\ q s' = r ++ [CComplete f].
+Proof. exact reach_owner_end_releases_server. Qed.
+Print Assumptions C08_owner_end_releases_server.
+
+(* idle pool limit: PconnPool::push closes the connection instead of pooling it when fdUsageHigh() *)
+Theorem C08_pool_refuses_when_fd_usage_high : forall maxfd ninfra reserved, ninfra <= maxfd ->
+  forall s c f, reachable maxfd ninfra reserved s -> find_own maxfd s (OSrv c) = Some f ->
+  fd_usage_high maxfd reserved (fnum (tbl s)) = true ->
+  exists s', step maxfd reserved s (ESrvDone c true) = Some s' /\ pool s' = pool s /\ closing s' f = true.
+Proof. exact reach_push_refused. Qed.
+Print Assumptions C08_pool_refuses_when_fd_usage_high.
+
+(* THE PROPERTY, in the protocol model (hence _partial): after ANY history, once every armed timeout has fired and
+   the call queue has run dry, exactly the descriptors open before traffic are open -- in the table and in the
+   kernel -- Number_FD and Biggest_FD are back at their start values, nothing is being closed, the idle pool is
+   empty. Missing for the full statement: a proof that each real owner (ConnStateData, FwdState, HttpStateData,
+   store and helper descriptors, tunnels) follows the protocol. *)
+Theorem C08_quiescent_returns_to_baseline_partial : forall maxfd ninfra reserved, ninfra <= maxfd ->
+  forall evs s, run maxfd reserved (init ninfra) evs = Some s ->
+  exists s', settle maxfd reserved s = Some s' /\
+    q s' = [] /\ (forall f, fopen (tbl s') f = true <-> f < ninfra) /\
+    (forall f, kern s' f = fopen (tbl s') f) /\ (forall f, closing s' f = false) /\
+    fnum (tbl s') = Z.of_nat ninfra /\ fbig (tbl s') = (Z.of_nat ninfra - 1)%Z /\
+    pool s' = [] /\ pcount s' = 0%Z.
+Proof. exact quiescence. Qed.
+Print Assumptions C08_quiescent_returns_to_baseline_partial.
+
+(* the prediction the extracted model prints for the correspondence runs is this theorem: for EVERY list of lab
+   transactions (sequential or interleaved) the history runs without a failed assertion and the quiescent
+   observation is "no extra descriptor, accounting consistent, pool and call queue empty" *)
+Theorem C08_model_prediction : forall maxfd ninfra reserved, ninfra <= maxfd ->
+  forall seqmode txs,
+  exists o idle, hist_result maxfd ninfra reserved seqmode txs = Some (o, idle) /\
+                 qo_leak o = 0%Z /\ qo_kleak o = 0%Z /\ qo_acct o = true /\ qo_idle o = 0 /\ qo_queue o = 0.
+Proof. exact hist_prediction. Qed.
+Print Assumptions C08_model_prediction.
+
+(* non-vacuity: a history that leaves a client connection, a server connection being closed and an idle pooled
+   connection open is reachable, and settles *)
+Example C08_reachable_example :
+  exists s, run 32 0%Z (init 4) [EAccept 0; EConnect 0; ESrvDone 0 true; EAccept 1; EConnect 1; ECliEOF 1; ERun true] = Some s /\
+            pool s = [5] /\ closing s 7 = true /\ active s 4 = true /\ fnum (tbl s) = 8%Z.
+Proof. eexists. split; [vm_compute; reflexivity|]. vm_compute. repeat split. Qed.
+
+Example C08_fd_usage_high_example : fd_usage_high 16 0 14 = true.
+Proof. vm_compute. reflexivity. Qed.
